@@ -1,13 +1,239 @@
-import LitexModel.Export.Addr
-import LitexModel.Export.Accessor
-import LitexModel.Export.MemImage
+import LitexProofs.Export.Decode
+import LitexProofs.Export.Roundtrip
+import LitexProofs.Export.MemImage
 /-
-  C14 — exported software maps tell the truth about the hardware.  (theorems are added below)
+  C14 — exported software maps tell the truth about the hardware.
+
+  Model: `LitexModel/Export/{Addr,Accessor,MemImage}.lean` (tied to `/repo` by `harness/props/c14.py`: real SoCs are
+  built, exported and every exported address is accessed in simulation; every model function below is compared with
+  what that run observed).
 -/
 namespace Litex.Export
 
-/-- The JSON view of a register list starts at the region origin. -/
-theorem regAddrs_head (stride busword origin s : Nat) (rest : List Nat) :
-    (regAddrs stride busword origin (s :: rest)).head? = some (origin, nwords busword s) := rfl
+/-! ## Exported address = decoded address (32-bit CSR bus, alignment 32) -/
+
+/-- **export_matches_decode.**  For every bank list (`pre ++ bank :: post`), every register list of the bank
+    (`rpre ++ s :: rpost`), every word `j` of register `s`: the address the exporters publish for that word is
+    `csr_base + paging·page + 4·index` with `index = Σ nwords(earlier registers) + j` (the flattening index of
+    `GenericBank`), and a 32-bit access at that address strobes exactly simple CSR `index` of that bank and nothing
+    else.  Hypotheses = the checks the build makes: pages distinct and `< n_locs` (`SoCLocHandler.add`), the bank fits
+    its page (`SoC.finalize`). -/
+theorem export_matches_decode
+    (csrBase paging aw page s j : Nat) (pre post : List Bank) (rpre rpost : List Nat)
+    (h4 : paging % 4 = 0)
+    (hj : j < nwords 32 s)
+    (hdist : ∀ b ∈ pre ++ post, b.page ≠ page)
+    (hfit : nsimple 32 (rpre ++ s :: rpost) ≤ paging / 4)
+    (hloc : page < nLocs 32 aw paging) :
+    ∃ e, ((exportAddrs csrBase paging 32 32 (pre ++ ⟨page, rpre ++ s :: rpost⟩ :: post))[pre.length]?.bind
+            (·[rpre.length]?)) = some e ∧
+      e.2 = nwords 32 s ∧
+      wordAddr 4 e j = csrBase + paging * page + 4 * (nsimple 32 rpre + j) ∧
+      hwDecode 32 aw paging (pre ++ ⟨page, rpre ++ s :: rpost⟩ :: post) (wordAddr 4 e j - csrBase)
+        = [(pre.length, nsimple 32 rpre + j)] := by
+  refine ⟨(csrBase + paging * page + 4 * nsimple 32 rpre, nwords 32 s), ?_, rfl, ?_, ?_⟩
+  · simp only [exportAddrs, List.getElem?_map]
+    rw [List.getElem?_append_right (Nat.le_refl _)]
+    simp only [Nat.sub_self, List.getElem?_cons_zero, Option.map_some, Option.bind_some, regionOrigin]
+    exact regAddrs_getElem? _ _ _ _ _ _
+  · simp only [wordAddr]; omega
+  · have hidx : nsimple 32 rpre + j < nsimple 32 (rpre ++ s :: rpost) := by
+      rw [nsimple_append, nsimple_cons]; omega
+    have hoff : wordAddr 4 (csrBase + paging * page + 4 * nsimple 32 rpre, nwords 32 s) j - csrBase
+        = paging * page + 4 * (nsimple 32 rpre + j) := by
+      simp only [wordAddr]; omega
+    rw [hoff]
+    rw [nLocs_32 aw paging h4] at hloc
+    have hlt : nsimple 32 rpre + j < paging / 4 := Nat.lt_of_lt_of_le hidx hfit
+    simp only [hwDecode, show (32 : Nat) ≠ 8 by decide, if_false]
+    rw [bridgeAdr_32 aw paging page _ h4 hlt hloc]
+    exact decode_unique paging 32 page _ pre post _ hdist hlt hidx
+
+/-- Non-vacuity: two banks (pages 0 and 5), second register (40 bit, two words) of the second bank, word 1. -/
+example : ∃ e, ((exportAddrs 0xf0000000 0x800 32 32 [⟨0, [2, 32, 32]⟩, ⟨5, [8, 40, 17]⟩])[1]?.bind (·[1]?)) = some e ∧
+    wordAddr 4 e 1 = 0xf0000000 + 0x800 * 5 + 4 * 2 ∧
+    hwDecode 32 14 0x800 [⟨0, [2, 32, 32]⟩, ⟨5, [8, 40, 17]⟩] (wordAddr 4 e 1 - 0xf0000000) = [(1, 2)] := by
+  refine ⟨(0xf0000000 + 0x800 * 5 + 4, 2), by decide, by decide, by decide⟩
+
+/-- Negative witness (known finding `C14-csr8-stride`): with an 8-bit CSR bus the exported address of the second
+    register (`base + 4`) does not select simple CSR 1 of its bank: the hardware packs bytes contiguously, so the
+    32-bit access strobes simple CSRs 4..7. -/
+example : hwDecode 8 14 0x800 [⟨0, [8, 8, 32, 32]⟩] (wordAddr 4 (4, 1) 0) = [(0, 4), (0, 5), (0, 6), (0, 7)] ∧
+    ((exportAddrs 0 0x800 32 8 [⟨0, [8, 8, 32, 32]⟩])[0]?.bind (·[1]?)) = some (4, 1) := by decide
+
+/-- Negative witness for `hfit` (fixed finding `C14-bank-exceeds-page`): a 257-word bank (one 8224-bit register) in a 256-word page
+    exports word 256 at the address of the next bank's first register; the build now refuses such a bank (`accepts`). -/
+example : hwDecode 32 14 0x400 [⟨0, [8224]⟩, ⟨1, [32]⟩] (0x400 * 0 + 4 * 256) = [(1, 0)] ∧
+    accepts 32 14 0x400 32 [⟨0, [8224]⟩, ⟨1, [32]⟩] = false := by decide
+
+/-- Negative witness for `hloc` (fixed finding `C14-csr-page-eq-nlocs`): page `n_locs` lies outside the CSR window
+    (its address wraps to page 0 in the bridge); the build refuses it. -/
+example : nLocs 32 14 0x800 = 32 ∧ hwDecode 32 14 0x800 [⟨32, [8]⟩] (0x800 * 32) = [] ∧
+    accepts 32 14 0x800 32 [⟨32, [8]⟩] = false := by decide
+
+/-- What the build accepts satisfies the hypotheses of `export_matches_decode` for each of its banks. -/
+theorem accepts_fits (aw paging : Nat) (banks : List Bank) (h : accepts 32 aw paging 32 banks = true)
+    (b : Bank) (hb : b ∈ banks) : b.page < nLocs 32 aw paging ∧ nsimple 32 b.regs ≤ paging / 4 := by
+  simp only [accepts, Bool.and_eq_true, List.all_eq_true, decide_eq_true_eq] at h
+  exact h.1 b hb
+
+/-! ## Generated accessors (big ordering) -/
+
+/-- **accessor_roundtrip_big (read).**  For every register size (any number of words for which a C type exists, i.e.
+    up to 64 bit), every byte-multiple bus word up to 32 bit and every register value `v`: the generated
+    `<reg>_read()` evaluated on the words the hardware returns at the successive exported addresses yields `v`. -/
+theorem accessor_read_big (bw size ct v : Nat) (hbw : 0 < bw) (hbw8 : bw % 8 = 0) (hbw32 : bw ≤ 32)
+    (hs : 0 < size) (hct : ctypeBits (nwords bw size) bw = some ct) (hv : v < 2 ^ size) :
+    accRead bw ct (hwWords true bw size v) = v := by
+  obtain ⟨hfit, _⟩ := ctype_fits _ _ _ hbw8 hct
+  rw [hwWords_big, accRead_descList bw ct _ _ hbw32 (fun i _ => hwWord_lt bw size v i)
+    (Nat.pow_le_pow_right (by decide) hfit)]
+  exact sumWords_hwWord bw size v hbw hs hv
+
+/-- **accessor_roundtrip_big (write).**  After the stores of the generated `<reg>_write(v)` (ascending addresses),
+    the storage signal holds `v` — from every previous register state, with and without `atomic_write`. -/
+theorem accessor_write_big (bw size ct v : Nat) (atomic : Bool) (st : RegSt)
+    (hbw : 0 < bw) (hbw8 : bw % 8 = 0) (hbw32 : bw ≤ 32)
+    (hs : 0 < size) (hct : ctypeBits (nwords bw size) bw = some ct) (hv : v < 2 ^ size) :
+    (hwWrite true atomic bw size st (accWriteWords bw ct (nwords bw size) v)).value bw size = v := by
+  obtain ⟨hfit, _⟩ := ctype_fits _ _ _ hbw8 hct
+  obtain ⟨_, h2, h3⟩ := nwords_spec bw size hbw hs
+  have hvct : v < 2 ^ ct :=
+    Nat.lt_of_lt_of_le hv (Nat.pow_le_pow_right (by decide) (Nat.le_trans h2 hfit))
+  unfold hwWrite RegSt.value
+  rw [accWriteWords_desc, hwWriteFrom_desc atomic bw size _ _ st 0 (by omega)]
+  have key : ∀ k, k < nwords bw size →
+      ((descList (fun i => i) (nwords bw size)).foldl
+        (fun s i => s.write bw size atomic i (((v % 2 ^ ct) >>> (i * bw)) % 2 ^ 32)) st).words k
+        = hwWord bw size v k := by
+    intro k hk
+    by_cases hat : atomic = true ∧ nwords bw size > 1
+    · obtain ⟨m, hm⟩ : ∃ m, nwords bw size = m + 1 := ⟨nwords bw size - 1, by omega⟩
+      rw [hat.1, hm, write_desc_atomic bw size _ (by omega) m st]
+      simp only [show k < m + 1 by omega, if_true]
+      exact store_word bw size ct v k hbw32 hvct
+    · have : (fun (s : RegSt) i => s.write bw size atomic i (((v % 2 ^ ct) >>> (i * bw)) % 2 ^ 32))
+          = fun s i => s.write bw size false i (((v % 2 ^ ct) >>> (i * bw)) % 2 ^ 32) := by
+        funext s i; exact write_not_atomic bw size atomic hat s i _
+      rw [this, write_desc_plain bw size _ _ st]
+      simp only [hk, if_true]
+      exact store_word bw size ct v k hbw32 hvct
+  rw [sumWords_congr bw _ (hwWord bw size v) _ key]
+  exact sumWords_hwWord bw size v hbw hs hv
+
+/-- Non-vacuity: a 40-bit register on the 32-bit CSR bus (two words, `uint64_t` accessors), atomic, from a dirty
+    state; and a 16-bit register on an 8-bit CSR bus. -/
+example : ctypeBits (nwords 32 40) 32 = some 64 ∧
+    accRead 32 64 (hwWords true 32 40 0x789abcdef0) = 0x789abcdef0 ∧
+    (hwWrite true true 32 40 (RegSt.ofValue 32 40 0x1122334455 0xff) (accWriteWords 32 64 2 0x789abcdef0)).value 32 40
+      = 0x789abcdef0 ∧
+    ctypeBits (nwords 8 16) 8 = some 16 ∧ accRead 8 16 (hwWords true 8 16 0xbeef) = 0xbeef := by decide
+
+/-- **accessor_roundtrip_little is false** (known finding `C14-little-ordering-accessors`): the exporters ignore
+    `csr_ordering`.  With ordering `little` the hardware presents the least significant word at the lowest address,
+    the generated reader still composes most-significant-first and the generated writer stores the high word at the
+    low address: a 40-bit register holding `0x789abcdef0` reads `0x9abcdef000000078`, and `write(0x789abcdef0)`
+    leaves `0xf012345678`-style garbage (here from the all-zero state: `0xf000000078`). -/
+example : accRead 32 64 (hwWords false 32 40 0x789abcdef0) ≠ 0x789abcdef0 ∧
+    (hwWrite false false 32 40 (RegSt.ofValue 32 40 0 0) (accWriteWords 32 64 2 0x789abcdef0)).value 32 40
+      ≠ 0x789abcdef0 := by decide
+
+/-- Single-word registers are not affected by the ordering. -/
+theorem hwWords_single (big : Bool) (bw size v : Nat) (h : nwords bw size = 1) :
+    hwWords big bw size v = hwWords true bw size v := by
+  cases big
+  · simp [hwWords, wordIdx, h]
+  · rfl
+
+/-- **field_extract_exact.**  The generated `<field>_extract` macro returns bits `[offset, offset+size)` of the
+    32-bit register word. -/
+theorem field_extract_exact (offset size word : Nat) (hw : word < 2 ^ 32) :
+    fieldExtract offset size word = slice offset size word := by
+  unfold fieldExtract slice
+  rw [Nat.mod_eq_of_lt hw, Nat.and_two_pow_sub_one_eq_mod, Nat.shiftRight_eq_div_pow]
+
+/-! ## JSON, CSV, C header and SVD denote the same addresses -/
+
+/-- **json_csv_svd_agree.**  For every bank list: (1) `csr.h` (`get_csr_header` called with a `csr_base` argument not
+    above the CSR base, as `builder.py` does with the CSR base itself) publishes for every register the `(address,
+    nwords)` of the JSON/CSV export (the CSV is printed from the JSON dictionary); (2) for every bank whose
+    registers have positive sizes the SVD register list is exactly the list of word addresses `addr + 4·j` of the
+    JSON export (SVD's hard-coded `+4` = `alignment/8` because `SoC` fixes `alignment = 32`). -/
+theorem json_csv_svd_agree (csrBaseArg csrBase paging bw : Nat) (banks : List Bank) (hbw : 0 < bw)
+    (harg : csrBaseArg ≤ csrBase) :
+    headerAddrs csrBaseArg csrBase paging 32 bw banks = exportAddrs csrBase paging 32 bw banks ∧
+    ∀ b ∈ banks, (∀ s ∈ b.regs, 0 < s) →
+      svdAddrs csrBase paging bw b = flatWordAddrs 4 (regAddrs (32 / 8) bw (regionOrigin csrBase paging b) b.regs) := by
+  constructor
+  · unfold headerAddrs exportAddrs
+    apply List.map_congr_left
+    intro b _
+    rw [regAddrs_shift]
+    congr 1
+    unfold regionOrigin; omega
+  · intro b _ hpos
+    unfold svdAddrs
+    have := svdOffsets_flat bw (regionOrigin csrBase paging b) hbw b.regs 0 hpos
+    simpa using this
+
+/-- Non-vacuity (the SoC of the first experiment): three banks, multi-word registers. -/
+example : headerAddrs 0 0 0x800 32 32 [⟨0, [2, 32, 32]⟩, ⟨2, [8, 40, 33, 17]⟩]
+      = [[(0, 1), (4, 1), (8, 1)], [(4096, 1), (4100, 2), (4108, 2), (4116, 1)]] ∧
+    svdAddrs 0 0x800 32 ⟨2, [8, 40, 33, 17]⟩ = [4096, 4100, 4104, 4108, 4112, 4116] := by decide
+
+/-- The C header was wrong exactly where `harg`'s analogue failed before fix 13a914e (offsets relative to the first
+    region instead of the printed base); with the fixed code a base argument above the CSR base is the only way to
+    disagree (Python would print a negative offset; `Nat` subtraction truncates). -/
+example : headerAddrs 0x2000 0 0x800 32 32 [⟨3, [8]⟩] ≠ exportAddrs 0 0x800 32 32 [⟨3, [8]⟩] := by decide
+
+/-! ## Memory initialisation images -/
+
+/-- **mem_image_lanes.**  For every file content (bytes `< 256`), data width `32·q` and endianness: in the image
+    `get_mem_data` produces (file at the start of the memory), the byte a CPU of that endianness reads at byte
+    address `a` — word `a/(4q)`, 32-bit sub-word `(a/4) mod q` (lower address = lower sub-word), byte lane by
+    endianness — is file byte `a`, and `0` (padding) beyond the end of the file, for every address of the image. -/
+theorem mem_image_lanes (big : Bool) (q : Nat) (bytes : List Nat) (a : Nat) (hq : 0 < q)
+    (hb : ∀ b ∈ bytes, b < 256) (ha : a / (4 * q) < (memImage big q 0 bytes).length) :
+    imageByte big q (memImage big q 0 bytes) a = bytes.getD a 0 := by
+  have hlen : (memImage big q 0 bytes).length = (bytes.length + 4 * q - 1) / (4 * q) := by
+    simp [memImage]
+  rw [hlen] at ha
+  have hword : (memImage big q 0 bytes).getD (a / (4 * q)) 0 = memWord big q bytes (a / (4 * q)) := by
+    rw [List.getD_eq_getElem?_getD]
+    simp only [memImage, Nat.zero_add, Nat.zero_div, Nat.zero_le, true_and, Nat.sub_zero]
+    rw [List.getElem?_map, List.getElem?_range ha]
+    simp [ha]
+  unfold imageByte
+  simp only [hword]
+  have hs : (a / 4) % q < q := Nat.mod_lt _ hq
+  rw [memWord_sub big q bytes hb _ _ hs]
+  have hoff : a / (4 * q) * (4 * q) + 4 * ((a / 4) % q) = 4 * (a / 4) := by
+    have h1 : a / (4 * q) = a / 4 / q := (Nat.div_div_eq_div_mul a 4 q).symm
+    have h2 := Nat.div_add_mod (a / 4) q
+    rw [h1]
+    calc a / 4 / q * (4 * q) + 4 * (a / 4 % q) = 4 * (q * (a / 4 / q) + a / 4 % q) := by ring
+      _ = 4 * (a / 4) := by rw [h2]
+  rw [hoff, sub32_lane big bytes hb _ (a % 4) (Nat.mod_lt _ (by decide))]
+  congr 1
+  omega
+
+/-- The image has exactly enough words for the file (zero padding of the tail only). -/
+theorem mem_image_length (big : Bool) (q : Nat) (bytes : List Nat) (hq : 0 < q) :
+    bytes.length ≤ 4 * q * (memImage big q 0 bytes).length ∧
+    4 * q * (memImage big q 0 bytes).length < bytes.length + 4 * q := by
+  have hlen : (memImage big q 0 bytes).length = (bytes.length + 4 * q - 1) / (4 * q) := by
+    simp [memImage]
+  rw [hlen]
+  have hpos : 0 < 4 * q := by omega
+  have h1 := Nat.div_mul_le_self (bytes.length + 4 * q - 1) (4 * q)
+  have h2 := Nat.lt_mul_div_succ (bytes.length + 4 * q - 1) hpos
+  rw [Nat.mul_comm] at h1
+  rw [Nat.mul_add, Nat.mul_one] at h2
+  omega
+
+/-- Non-vacuity: 6 bytes, 64-bit words, big endian (one word, tail padded); 5 bytes, 32-bit little endian. -/
+example : memImage true 2 0 [1, 2, 3, 4, 5, 6] = [0x0506000001020304] ∧
+    imageByte true 2 [0x0506000001020304] 5 = 6 ∧ imageByte true 2 [0x0506000001020304] 6 = 0 ∧
+    memImage false 1 0 [1, 2, 3, 4, 5] = [0x04030201, 0x05] := by decide
 
 end Litex.Export
